@@ -193,7 +193,9 @@ def float_file_ts(k, n, d, C):
 
 
 MD_RATES = [(1, 1), (100, 1), (200, 3), (1000000, 3), (1000000, 1), (100000000, 7), (30000000, 1001),
-            (4294967295, 1000003), (1, 10), (10, 3), (999983, 1000), (44100, 1), (125, 2)]
+            (4294967295, 1000003), (1, 10), (10, 3), (999983, 1000), (44100, 1), (125, 2),
+            # numerators above 2^32 (the metadata format stores them as 64-bit integers): k*d exceeds 2^64
+            (20000000000, 1001), (2 ** 33 + 1, 30), (10 ** 12, 10 ** 6 + 3)]
 
 
 @st.composite
